@@ -1,4 +1,4 @@
-\* C20 ext (specs/TagRules.tla), thorough: design check and export; TagsFilter, the larger alphabet (6-7 TagMatcher templates) of: regex matchers (anchored at the start, at the end, both, with a wildcard); rule lists <= 3 x single tags of 15, <= 2 x <= 2 of 6, <= 1 x <= 3 of 6.  Deadlock checking stays on: every behaviour must reach phase "done".
+\* C20 ext (specs/TagRules.tla), thorough: design check and export; TagsFilter, the larger alphabet (6-7 TagMatcher templates) of: regex matchers (anchored at the start, at the end, both, with a wildcard); rule lists <= 3 x single tags of 10, <= 2 x <= 2 of 6, <= 1 x <= 3 of 6.  Deadlock checking stays on: every behaviour must reach phase "done".
 SPECIFICATION Spec
 CONSTANTS
   Fams <- OnlyTF
